@@ -76,14 +76,14 @@ func (check) Cases(tier string) int {
 func (check) Exhaustive(string) bool { return false }
 
 func (check) Rule() string {
-	return "each random case: 20 documents = a random data tree (objects over a key pool incl. \"\", spaces, quotes, backslash, non-ASCII; arrays; strings over an alphabet with quote, backslash, solidus, control, DEL, non-ASCII, astral, Unicode spaces and all syntax characters, strings ending in backslashes; integers at the int64/uint64/2^53 boundaries; floats incl. extremes; true/false/null; {} and []) rendered by our own renderer (compact / indented / whitespace with probability 8..95% at every position JSON allows; every escape spelling incl. upper/lower/mixed hex and surrogate pairs; fraction and exponent respellings of numbers), validated against encoding/json, parsed with parse.Value and with all 24 legal parse.Config values; ~1/7 of the documents additionally spell some strings with single quotes; plus 2 top-level comma word lists per case; plus 6 nested-literal documents per case (arrays/objects, nested up to 3 deep, under a config with Object, StringDQuote and/or StringSQuote off, whose elements / member values open with a disabled { \" or ' and hold the other container's closer, colons, quotes, spaces; mixed with normal scalars, enabled-quote strings holding stop characters, unquoted and enabled-quote keys; each run with IgnoreCommas off and on); plus 4 top-level comma documents per case (a complete dq-string / sq-string / array / object / word followed by a comma and nothing, a quoted value, a container, a word or 2-3 more values; all 24 configs); plus wide/deep documents (quick: one deep per case, one wide every 4th case; thorough: every 5th / 20th): 0-3 wrapper levels, a wide array or object with 0-6 (deep) or 100-60000 (wide, clustered around 10000) siblings drawn from a 1-3 kind palette of 14 element kinds (empty containers with and without blanks, scalars, short strings, small containers), a tail chain of arrays/objects placed first/middle/last whose depth aims at exactly 10000 (35%), 9999, 10001, beyond, or anything below, siblings before the child at 0/1/30/100% of the tail levels, three whitespace layouts; half of them parsed right after an over-limit, unterminated or empty-object-heavy document; parsed with parse.Value and one more config; plus (thorough: all, quick: a seed-chosen slice of) strings of length <= 6 over [ ] { } \" , : \\ a 1 space that encoding/json accepts. Non-trivial = the document has at least one container or one escaped string; distinct = distinct document text."
+	return "each random case: 20 documents = a random data tree (objects over a key pool incl. \"\", spaces, quotes, backslash, non-ASCII; arrays; strings over an alphabet with quote, backslash, solidus, control, DEL, non-ASCII, astral, Unicode spaces and all syntax characters, strings ending in backslashes; integers at the int64/uint64/2^53 boundaries; integer numerals beyond 64 bits of both signs; floats incl. extremes; true/false/null; {} and []) rendered by our own renderer (compact / indented / whitespace with probability 8..95% at every position JSON allows; every escape spelling incl. upper/lower/mixed hex and surrogate pairs; fraction and exponent respellings of numbers), validated against encoding/json, parsed with parse.Value and with all 24 legal parse.Config values; ~1/7 of the documents additionally spell some strings with single quotes; plus 2 top-level comma word lists per case; plus 6 nested-literal documents per case (arrays/objects, nested up to 3 deep, under a config with Object, StringDQuote and/or StringSQuote off, whose elements / member values open with a disabled { \" or ' and hold the other container's closer, colons, quotes, spaces; mixed with normal scalars, enabled-quote strings holding stop characters, unquoted and enabled-quote keys; each run with IgnoreCommas off and on); plus 4 top-level comma documents per case (a complete dq-string / sq-string / array / object / word followed by a comma and nothing, a quoted value, a container, a word or 2-3 more values; all 24 configs); plus wide/deep documents (quick: one deep per case, one wide every 4th case; thorough: every 5th / 20th): 0-3 wrapper levels, a wide array or object with 0-6 (deep) or 100-60000 (wide, clustered around 10000) siblings drawn from a 1-3 kind palette of 14 element kinds (empty containers with and without blanks, scalars, short strings, small containers), a tail chain of arrays/objects placed first/middle/last whose depth aims at exactly 10000 (35%), 9999, 10001, beyond, or anything below, siblings before the child at 0/1/30/100% of the tail levels, three whitespace layouts; half of them parsed right after an over-limit, unterminated or empty-object-heavy document; parsed with parse.Value and one more config; plus (thorough: all, quick: a seed-chosen slice of) strings of length <= 6 over [ ] { } \" , : \\ a 1 space that encoding/json accepts. Non-trivial = the document has at least one container or one escaped string; distinct = distinct document text."
 }
 
 func (check) Assumptions() []string {
 	return []string{
 		"encoding/json (UseNumber) is the second witness that a generated text is valid JSON for the generating tree; a disagreement is counted as generator_error and reported as INCONCLUSIVE, never as a violation",
 		"canonical comparison: numbers by value (uint64/int64/float64 all fine), nil == {} == [] == absent key inside dictionaries (the parser documents []/{} -> nil), nil list elements stay",
-		"numbers: integers in digit spelling over the whole int64/uint64 range; fraction/exponent spellings only for values a float64 holds exactly (|n| <= 2^53) or for float64 data (compared with the correctly rounded value); nothing beyond uint64/float64 range; no duplicate object keys",
+		"numbers: integers in digit spelling over the whole int64/uint64 range; fraction/exponent spellings only for values a float64 holds exactly (|n| <= 2^53) or for float64 data (compared with the correctly rounded value); integer NUMERALS (digits only) no 64 bit type holds, of both signs, near the 64 bit span and up to 10^39, exact or anywhere inside the rounding interval, must come back as the nearest float64 (what encoding/json makes of them); the numerals just below MinInt64 whose float64 is -2^63 may come back as their text or as -2^63 (2 such documents per case); nothing beyond float64 range; no duplicate object keys",
 		"single-quoted strings are taken verbatim (documented: no unescaping) and never contain a single quote",
 		"config rules: (1) a document using only enabled syntax must parse as under DefaultConfig (or as the generating data); (2) a document OPENING with a disabled bracket/quote must come back as its literal trimmed text, judged only without any comma in the text or under IgnoreCommas; random JSON documents using disabled syntax only deeper inside are not judged (their commas make the literal reading split them); the nested-literal documents judge exactly that position: an array element / object member value opening with a disabled opener is the raw text up to the container's next stop character (comma or ] in an array, comma or } in an object), no bracket or quote matching, trimmed; expectation built constructively and cross-checked by an own raw-slicing reader of that rule (disagreement = generator_error); object keys opening with a DISABLED quote are not generated (the parser reads quoted keys regardless of the flags); (3) plain-word comma lists: list without IgnoreCommas, one string with it; IgnoreCommas after a quoted first element is not generated",
 		"nesting: the parser refuses documents nested deeper than encoding/json does (10000 open arrays/objects); a document whose deepest value sits inside at most 10000 containers must parse and read back faithfully whatever its width, its earlier elements or what was parsed before in the process; a deeper document may be refused or parsed faithfully (both accepted, anything else is a violation); wide/deep results are compared by a linear-time structural hash of the same canonical form",
@@ -254,7 +254,8 @@ func sameWitness(n *model.Node, w interface{}) bool {
 				return false
 			}
 			// an integer literal must denote the float exactly
-			if digitsOnly(string(num)) && len(num) < 400 {
+			// a numeral no 64 bit integer type holds denotes the nearest float64
+			if digitsOnly(string(num)) && len(num) < 400 && fits64(string(num)) {
 				r, ok := new(big.Rat).SetString(string(num))
 				fr := new(big.Rat).SetFloat64(p)
 				return ok && fr != nil && r.Cmp(fr) == 0
@@ -326,10 +327,8 @@ func fromWitness(w interface{}) (*model.Node, bool) {
 		if u, err := strconv.ParseUint(s, 10, 64); err == nil {
 			return model.P(u), true
 		}
-		if strings.ContainsAny(s, ".eE") {
-			if f, err := strconv.ParseFloat(s, 64); err == nil {
-				return model.P(f), true
-			}
+		if f, err := strconv.ParseFloat(s, 64); err == nil && (strings.ContainsAny(s, ".eE") || beyond64(f)) {
+			return model.P(f), true
 		}
 		return nil, false
 	case []interface{}:
@@ -567,6 +566,12 @@ func (c *runner) classify(d *model.Node, text string, toks []tok, want string, o
 		}
 		if !c.parseDefault(t).is(w) {
 			kind := map[byte]string{'q': "dq-string", 's': "sq-string", 'p': "scalar"}[tk.k]
+			if tk.k == 'p' && digitsOnly(t) && !fits64(t) {
+				kind = "integer-numeral-beyond-64-bits:positive"
+				if t[0] == '-' {
+					kind = "integer-numeral-beyond-64-bits:negative"
+				}
+			}
 			return generic + ":spelling:" + kind, note + fmt.Sprintf("; the token %q fails on its own", t)
 		}
 	}
@@ -689,7 +694,13 @@ func (check) Run(seed int64, tier string, idx int, verbose bool) harness.Result 
 		return res.Done()
 	}
 	r := rand.New(rand.NewSource(harness.Mix(seed, "C17", idx)))
-	note := func(set, v string) { res.SetAdd(set, v) }
+	note := func(set, v string) {
+		if strings.HasPrefix(set, "ev:") {
+			res.Ev(set[3:]+"_"+v, 1)
+			return
+		}
+		res.SetAdd(set, v)
+	}
 	for k := 0; k < docsPerCase; k++ {
 		depth := 1 + r.Intn(3)
 		if tier == "thorough" && r.Intn(8) == 0 {
@@ -729,6 +740,9 @@ func (check) Run(seed int64, tier string, idx int, verbose bool) harness.Result 
 		c.nestedDoc(r, tier)
 	}
 	c.commaDocs(r)
+	for k := 0; k < zoneDocsPerCase; k++ {
+		c.zoneDoc(r)
+	}
 	// wide / deep documents cost 10-50 ms each: every case (deep) and every 4th
 	// case (wide) in the quick tier, every 5th / 20th in the thorough tier
 	deepEvery, wideEvery := 1, 4
